@@ -34,7 +34,10 @@ RULE = ("exhaustive: every sequence of length <= 5 over 3 keys (thorough: <= 6 o
         "bidirectional, input(+output) (all flavours on every case for the category-dependent algorithms, on a "
         "deterministic quarter of the cases for the others); plus seeded random longer inputs; a deterministic sixteenth of all "
         "case lines of the predicate- / comparator-taking operations again with a predicate returning int (truthy 2, -1, 4096) "
-        "or a class type contextually convertible to bool (suffix _t1.._t4); "
+        "or a class type contextually convertible to bool (suffix _t1.._t4); every numeric fold (accumulate, reduce, inner_product, "
+        "transform_reduce, partial_sum, adjacent_difference, iota; overloads without and with a transparent operation) on 11 "
+        "combinations of (element, element, init, destination) types over unsigned char / int / long long / float / double - every "
+        "list of length <= 3 over a pool per combination + random lengths 4..8 (ops nx_*); "
         "non-trivial = distinct case line whose impl outcome is ok")
 
 # operations that take a predicate or comparator (is_permutation has no predicate overload; the numeric operations take
